@@ -66,6 +66,9 @@ func createCmd(globalCfg *globalConfig, cfg *createConfig) error {
 		if err != nil {
 			return fmt.Errorf("failed to create big index writer: %w", err)
 		}
+		// on an error below (e.g. a malformed record) the writer still holds a write
+		// transaction on tempDB, and tempDB.Close would wait for it for ever.
+		defer idx.Close()
 
 		iw = idx
 	} else {
